@@ -202,6 +202,11 @@ def nested_cases():
                     continue
                 for flt in ([], ["--unique"], ["--rf-over", "0"]):
                     out.append({"kind": "nested", "big": big, "layout": layout, "order": order, "flt": flt})
+                    # the same with MANY more input roots that hold unrelated unique files (7: nine or ten roots in
+                    # all, 14: sixteen or more): the verdict for the class may not depend on their number
+                    if not big:
+                        for extra in (7, 14):
+                            out.append({"kind": "nested", "big": big, "layout": layout, "order": order, "flt": flt, "extra": extra})
     return out
 
 
@@ -227,14 +232,21 @@ def evaluate_nested(case):
         count = len(set(owner(p, model) for p in files))
         allowed.add(count > rf_over or count < rf_under)
     verdicts = []
-    for rev in (False, True):
+    extra_roots = ["x%02d" % i for i in range(case.get("extra", 0))]
+    by_extra = {}
+    for rev, with_extra in ((False, True), (True, True)) + (((False, False),) if extra_roots else ()):
+        xr = extra_roots if with_extra else []
         with C.Scratch() as sc:
             ents = [{"p": p, "k": "file", "c": content} for p in (reversed(files) if rev else files)]
             ents.append({"p": "a/zz_decoy", "k": "file", "c": ["flip", 20000, 4, 19999] if case["big"] else ["lit", "other-content-of-the-clas0"]})
             for d in ("a/b", "c"):
                 ents.append({"p": d, "k": "dir"})
+            for x in extra_roots:
+                ents.append({"p": x + "/u", "k": "file", "c": ["lit", "unrelated unique file %s....." % x]})
             C.make_tree(sc.tree, ents)
-            args = ["group", "--min", "0", "--isolate"] + case["flt"] + roots + ["-f", "json"]
+            # (the unrelated roots are spread between the roots under test, which keep their relative order)
+            all_roots = (xr[:3] + roots[:1] + xr[3:5] + roots[1:] + xr[5:]) if xr else roots
+            args = ["group", "--min", "0", "--isolate"] + case["flt"] + all_roots + ["-f", "json"]
             rc, out, err, to = C.fclones(args, sc)
             feat = {"kind": "count_wrong", "root_spelling": "nested", "flags": "--isolate", "filter": " ".join(case["flt"]) or "default",
                     "nested_isolate_roots": True}
@@ -249,7 +261,9 @@ def evaluate_nested(case):
                        if frozenset(C.u(p) for p in g["paths"]) & want and frozenset(C.u(p) for p in g["paths"]) != want]
             if partial:
                 viol.append(dict(feat, kind="paths_incomplete", detail="%s: group %s does not list the whole class %s" % (args, partial, files)))
-            verdicts.append(reported)
+            by_extra.setdefault(with_extra, []).append(reported)
+            if with_extra:
+                verdicts.append(reported)
             if reported not in allowed:
                 viol.append(dict(feat, detail="%s (files created in %s order): class %s %s, but it holds %s replicas under either reading of "
                                  "nested roots" % (args, "reverse" if rev else "listed", files, "reported" if reported else "not reported",
@@ -259,7 +273,13 @@ def evaluate_nested(case):
                      "filter": " ".join(case["flt"]) or "default", "nested_isolate_roots": True,
                      "detail": "--isolate %s %s: the class %s is reported or not depending on the order in which the files were created" % (
                          roots, case["flt"], files)})
-    return {"violations": viol, "evaluations": 2, "nontrivial": ["nested", case["big"], case["layout"], case["order"], case["flt"]],
+    if extra_roots and by_extra.get(False) and by_extra.get(True) and by_extra[False][0] != by_extra[True][0]:
+        viol.append({"kind": "depends_on_unrelated_roots", "root_spelling": "nested", "flags": "--isolate",
+                     "filter": " ".join(case["flt"]) or "default", "nested_isolate_roots": True,
+                     "detail": "--isolate %s %s: the class %s is %s with these roots alone and %s when %d further roots with unrelated files are given" % (
+                         roots, case["flt"], files, "reported" if by_extra[False][0] else "not reported",
+                         "reported" if by_extra[True][0] else "not reported", len(extra_roots))})
+    return {"violations": viol, "evaluations": 2 + (1 if extra_roots else 0), "nontrivial": ["nested", case["big"], case["layout"], case["order"], case["flt"], case.get("extra", 0)],
             "outcome": ["nested_isolate"], "sample": {"nested": case}}
 
 
@@ -339,3 +359,4 @@ def finish(stats, tier):
 
 
 RULE += ' Since rounds 10-11 also: roots below a symlinked directory; every flag set x filter also with --skip-content-hash (decoy differing inside the hashed prefix).'
+RULE += ' Since round 12 also: the nested-root cases with 7 / 14 further input roots holding unrelated files (nine and more roots in all): the verdict may not depend on their number.'
